@@ -19,7 +19,7 @@ V = namedtuple("V", "family idx")  # LP variable atom; idx is an Idx
 K = namedtuple("K", "path idx")  # model constant; path tuple of str, idx Idx|None
 Idx = namedtuple("Idx", "m n c")  # index m*month + n*NMONTHS + c
 
-MAX_DEGREE = 12
+MAX_DEGREE = 40
 MAX_TERMS = 20000
 
 
@@ -172,6 +172,42 @@ class Poly:
             p.t[tuple(items)] = c
         return p
 
+    @staticmethod
+    def _mkey(m):
+        return (sum(e for _, e in m), [(_akey(a), e) for a, e in m])
+
+    def lead(self):
+        m = max(self.t, key=Poly._mkey)
+        return m, self.t[m]
+
+    def divide_exact(self, d, max_steps=400):
+        """quotient q with self == q*d, or None (multivariate division in a graded order)"""
+        if d.is_zero():
+            return None
+        rem = Poly(self.t)
+        q = Poly()
+        dm, dc = d.lead()
+        ddict = dict(dm)
+        steps = 0
+        while not rem.is_zero():
+            steps += 1
+            if steps > max_steps:
+                return None
+            rm, rc = rem.lead()
+            rdict = dict(rm)
+            if any(rdict.get(a, 0) < e for a, e in ddict.items()):
+                return None
+            qm = {}
+            for a, e in rdict.items():
+                e2 = e - ddict.get(a, 0)
+                if e2:
+                    qm[a] = e2
+            qmono = tuple(sorted(qm.items(), key=lambda t: _akey(t[0])))
+            term = Poly({qmono: rc / dc})
+            q = q + term
+            rem = rem - term * d
+        return q
+
     def subst(self, mapping):
         """mapping: atom -> Rat ; returns Rat"""
         out = Rat.const(0)
@@ -259,6 +295,21 @@ class Rat:
         if n == d:
             n = Poly.const(1)
             d = Poly.const(1)
+        elif not d.is_const() and len(d.t) > 1:
+            # cancel an exactly dividing denominator (or numerator)
+            q = n.divide_exact(d) if len(n.t) * len(d.t) <= 4000 else None
+            if q is not None:
+                n, d = q, Poly.const(1)
+            elif len(n.t) > 1:
+                q2 = d.divide_exact(n) if len(n.t) * len(d.t) <= 4000 else None
+                if q2 is not None and not q2.is_zero():
+                    n, d = Poly.const(1), q2
+                    g2 = d.content()
+                    lead2 = d.t[min(d.t, key=lambda mm: [(_akey(a), e) for a, e in mm])]
+                    if lead2 < 0:
+                        g2 = -g2
+                    n = n.scale(1 / g2)
+                    d = d.scale(1 / g2)
         self.n = n
         self.d = d
 
